@@ -42,4 +42,10 @@ def run(path, verbose=True):
     if kind == "crash":      # C02: (configuration, history) that crashed / hung event processing
         import props.c02
         return props.c02.replay(r, path, wd)
+    if kind == "c15":        # C15: (files, contents, script) run as the three lanes of the reload check, judged by P_C15
+        import props.c15
+        return props.c15.replay(r, path, wd)
+    if kind == "c07pair":    # C07: (prefix, gap K, continuation) run as the ticking and the blocked lane, judged by P_C07!PairErr
+        import props.c07
+        return props.c07.replay(r, path, wd)
     raise ToolError("unknown replay kind %r" % kind)
